@@ -3,6 +3,7 @@
 From Coq Require Import ZArith Reals Lra Lia Psatz List.
 From Coquelicot Require Import Coquelicot.
 Require Import Num Vec Tactics step_gen C41_Model.
+Require stepf_gen.   (* the float overloads, translated separately (Gen/stepf_gen.v), same names: used qualified *)
 Import ListNotations.
 Local Open Scope R_scope.
 
@@ -576,6 +577,19 @@ Proof. intros Hx Hy Hab. rewrite !Step_value_is_stepAny by lra.
 Lemma Step_range y0 y1 x0 x1 x : x0 <> x1 -> y0 <= y1 -> y0 <= step_value ROps y0 y1 x0 x1 x <= y1.
 Proof. intros Hne Hy. rewrite Step_value_is_stepAny by auto.
   generalize (stepAny_range y0 (y1 - y0) x0 (1 / (x1 - x0)) x ltac:(lra)). lra. Qed.
+
+(** ** the float overloads stepUp(float) ... d3stepAny(float,...) of Scalar.h translate to literally the same
+    Gallina terms as the double overloads, so every theorem above holds for them as well (over R) *)
+Lemma float_overloads_same_formulas T (K : NumOps T) :
+  (forall x, stepf_gen.k_stepUp K x = k_stepUp K x) /\ (forall x, stepf_gen.k_dstepUp K x = k_dstepUp K x) /\
+  (forall x, stepf_gen.k_d2stepUp K x = k_d2stepUp K x) /\ (forall x, stepf_gen.k_d3stepUp K x = k_d3stepUp K x) /\
+  (forall x, stepf_gen.k_stepDown K x = k_stepDown K x) /\ (forall x, stepf_gen.k_dstepDown K x = k_dstepDown K x) /\
+  (forall x, stepf_gen.k_d2stepDown K x = k_d2stepDown K x) /\ (forall x, stepf_gen.k_d3stepDown K x = k_d3stepDown K x) /\
+  (forall y0 yr x0 oox x, stepf_gen.k_stepAny K y0 yr x0 oox x = k_stepAny K y0 yr x0 oox x) /\
+  (forall yr x0 oox x, stepf_gen.k_dstepAny K yr x0 oox x = k_dstepAny K yr x0 oox x) /\
+  (forall yr x0 oox x, stepf_gen.k_d2stepAny K yr x0 oox x = k_d2stepAny K yr x0 oox x) /\
+  (forall yr x0 oox x, stepf_gen.k_d3stepAny K yr x0 oox x = k_d3stepAny K yr x0 oox x).
+Proof. repeat split; intros; reflexivity. Qed.
 
 (** ** summary.  PARTIAL with respect to the property text: the spline clauses of C41 ("interpolating splines pass through
     every control point with the continuity their degree promises"; Spline_/SplineFitter/GCVSPL) are NOT modelled and
